@@ -66,7 +66,7 @@ func (e *evidence) addRun(o jobOut) {
 		e.stubs[k] += v
 	}
 	for i, s := range r.Samples {
-		if i < 4 {
+		if i < 3 && len(e.samples) < 40 {
 			e.samples = append(e.samples, map[string]string{"entry": r.Entry, "obligation": s})
 		}
 	}
